@@ -98,6 +98,112 @@ def set_of_text(text):
     return merge(iv), neg
 
 
+_RANGE_RE_CACHE = {}
+
+
+def reader_range_regex(model):
+    """The regex with which the class pipeline recognises a range `x-y` in a class body, located by ROLE: a class
+    union is interpreted and every pattern handed to `re` (module functions and compiled objects alike) is recorded;
+    the reader's range regex is the recorded (sub)pattern of the shape <endpoint> '-' <endpoint> with alternation
+    endpoints.  (Where the constant lives and what it is called does not matter.)"""
+    if model.root in _RANGE_RE_CACHE:
+        return _RANGE_RE_CACHE[model.root]
+    import re as _re
+    seen = []
+
+    class Rec(PregexHooks):
+        def intercept_py(self, interp, f, args, kwargs, node):
+            pat = None
+            owner = getattr(f, "__self__", None)
+            if isinstance(owner, _re.Pattern):
+                pat = owner.pattern
+            elif getattr(f, "__module__", None) == "re" and args and isinstance(args[0], str):
+                pat = args[0]
+            elif f is _re.compile and args and isinstance(args[0], str):
+                pat = args[0]
+            if isinstance(pat, str) and pat not in seen:
+                seen.append(pat)
+            return NotImplemented
+    it = Interp(model, Rec(model), fuel=400000)
+    import ast as _ast
+    try:
+        a = it.construct(model.cls(CLS, "AnyFrom"), ["a", "c", "x"])
+        b = it.construct(model.cls(CLS, "AnyBetween"), ["b", "f"])
+        it.binop(_ast.BitOr(), a, b, None)
+        it.binop(_ast.Sub(), b, a, None)
+    except PyRaise as e:
+        raise AnalysisError(f"anchor vanished: a plain class union fails with {e.name}")
+
+    def shape_ok(nodes):
+        return len(nodes) == 3 and nodes[1] == ("LITERAL", 45) and nodes[0][0] == "BRANCH" and nodes[2][0] == "BRANCH"
+
+    def find(nodes):
+        if shape_ok(nodes):
+            return nodes
+        for n in nodes:
+            if n[0] == "SUBPATTERN":
+                r = find(tuple(n[1][3]))
+                if r is not None:
+                    return r
+            elif n[0] == "BRANCH":
+                for alt in n[1][1]:
+                    r = find(tuple(alt))
+                    if r is not None:
+                        return r
+        return None
+    for pat in seen:
+        try:
+            tree = parse_regex(pat, 0)[0]
+        except _re.error:
+            continue
+        hit = find(tuple(tree))
+        if hit is not None:
+            # re-serialise the located sub-tree from the source text: take the text between the group's parentheses
+            text = _subpattern_text(pat, hit)
+            if text is not None:
+                _RANGE_RE_CACHE[model.root] = text
+                return text
+    raise AnalysisError("anchor vanished: no regex of the shape <endpoint>-<endpoint> is applied by the class pipeline")
+
+
+def _subpattern_text(pat, hit):
+    """Text of the sub-pattern of `pat` whose parse equals `hit` (tried: the whole pattern, every parenthesised part)."""
+    cands = [pat]
+    depth, starts = 0, []
+    i = 0
+    while i < len(pat):
+        c = pat[i]
+        if c == "\\":
+            i += 2
+            continue
+        if c == "[":
+            j = i + 1
+            if j < len(pat) and pat[j] == "^":
+                j += 1
+            if j < len(pat) and pat[j] == "]":
+                j += 1
+            while j < len(pat) and pat[j] != "]":
+                j += 2 if pat[j] == "\\" else 1
+            i = j + 1
+            continue
+        if c == "(":
+            starts.append(i)
+        elif c == ")" and starts:
+            st = starts.pop()
+            inner = pat[st + 1:i]
+            if inner.startswith("?:"):
+                inner = inner[2:]
+            cands.append(inner)
+        i += 1
+    for t in cands:
+        try:
+            if tuple(parse_regex(t, 0)[0]) == tuple(hit):
+                return t
+        except Exception:
+            continue
+    return None
+
+
 def tables(model):
     """W, R_esc, R_bare from the source constants."""
     base = model.cls(CLS, "__Class")
@@ -105,10 +211,7 @@ def tables(model):
         raise AnalysisError("anchor vanished: __Class._to_escape")
     W = ast.literal_eval(base.attrs["_to_escape"])
     W = set(W)
-    sep = model.method(CLS, "__Class", "__separate_classes")
-    rp = fold_str(model, sep, ast.Name(id="range_pattern", ctx=ast.Load()))
-    if rp is None:
-        raise AnalysisError("anchor vanished: range_pattern constant of __separate_classes")
+    rp = reader_range_regex(model)
     tree = parse_regex(rp, 0)[0]
     # shape: endpoint '-' endpoint ; endpoint = BRANCH[ '\\' + alternatives , NOT-set ]
     def endpoint(node):
